@@ -12,7 +12,7 @@
 (* suffix b = durably blocked inside it, r/p = woken (returning normally / *)
 (* panicking).  Channels are rendezvous channels with Go semantics.        *)
 (*                                                                         *)
-(*   adder p   a0 call | a1 load stopped | a2 lock,push,unlock |           *)
+(*   adder p   ab store message | a0 call | a1 load stopped | a2 lock,push,unlock |           *)
 (*             a3 send updateNotify | a3b | a3r | a3p | done               *)
 (*   closer    c0 call | c1 store stopped | c2 send stopNotify | c2b |     *)
 (*             c3 recv stopNotify | c3b | c4 close(updateNotify) |         *)
@@ -52,7 +52,7 @@ MsgOf(e) == IF e \in Adders THEN e ELSE CHOOSE p \in Adders : R(p) = e
 None == [e |-> "", due |-> 0]
 AsIs == "AddCloseWindow" \in Devs
 
-VARIABLES cfg,        \* [due : [Adders -> Nat], close, retry \subseteq Adders, par]
+VARIABLES cfg,        \* [due : [Adders -> Nat], close, retry \subseteq Adders, par, hdr \subseteq retry]
           now,
           stopped, slots, updClosed, doneClosed,
           apc, cpc, tpc,
@@ -72,12 +72,12 @@ schedV == <<hist, cur, delays>>
 vars == <<cfg, now, wheelV, apc, cpc, tickV, workV, queueV, ended, obs, schedV>>
 View == <<cfg, now, wheelV, apc, cpc, tickV, workV, queueV, ended, obs>>
 
-Cfgs == [due : [Adders -> DueSet], close : CloseSet, retry : RetrySets, par : ParSet]
+Cfgs == [due : [Adders -> DueSet], close : CloseSet, retry : RetrySets, par : ParSet, hdr : {{}}]
 
 InitWith(c) ==
   /\ cfg = c /\ now = 0
   /\ stopped = FALSE /\ slots = {} /\ updClosed = FALSE /\ doneClosed = FALSE
-  /\ apc = [p \in Adders |-> IF p \in DOMAIN c.due THEN "a0" ELSE "idle"]
+  /\ apc = [p \in Adders |-> IF p \in DOMAIN c.due THEN "ab" ELSE "idle"]
   /\ cpc = IF c.close THEN "c0" ELSE "none"
   /\ tpc = "t0" /\ tnow = 0 /\ closest = None /\ timerAt = 0
   /\ wpc = [e \in Entries |-> "none"] /\ wdue = [e \in Entries |-> 0]
@@ -102,11 +102,16 @@ SenderDue(s) == IF s[1] = "a" THEN cfg.due[s[2]] ELSE wdue[s[2]]
 
 (* ------------------------------------------------------------------------ *)
 (* producers: TimeWheel.Add called from outside (queueDelivery.Commit)      *)
+\* Start / AddRcpt / Body: the message is stored in the spool; Commit (-> Add) is a later step
+AB(p) == /\ apc[p] = "ab"
+         /\ apc' = [apc EXCEPT ![p] = "a0"]
+         /\ spool' = spool \cup {p}
+         /\ UNCHANGED <<cfg, now, wheelV, cpc, tickV, workV, sem, semq, wg, broken, ended, obs>>
+
 A0(p) == /\ apc[p] = "a0"
          /\ apc' = [apc EXCEPT ![p] = "a1"]
-         /\ spool' = spool \cup {p}            \* the message is stored before Commit calls Add
          /\ obs' = ObsAddCall(obs, p, p, cfg.due[p])
-         /\ UNCHANGED <<cfg, now, wheelV, cpc, tickV, workV, sem, semq, wg, broken, ended>>
+         /\ UNCHANGED <<cfg, now, wheelV, cpc, tickV, workV, queueV, ended>>
 
 A1(p) == /\ apc[p] = "a1"
          /\ IF stopped
@@ -230,7 +235,12 @@ W0(e) == /\ wpc[e] = "w0" /\ wpc' = [wpc EXCEPT ![e] = "w1"]
 Attempt(e) ==
   LET m == MsgOf(e)
       retry == e \in Adders /\ e \in cfg.retry
-  IN /\ obs' = LET o1 == ObsDispatch(obs, e, now)
+  IN IF e \notin Adders /\ m \in cfg.hdr
+     THEN \* the header cannot be opened right now (EMFILE, ELOOP, ...): the attempt is given up,
+          \* the message stays in the spool for the next start
+          wpc' = [wpc EXCEPT ![e] = "w5"] /\ UNCHANGED <<wdue, spool, obs>>
+     ELSE
+     /\ obs' = LET o1 == ObsDispatch(obs, e, now)
                IN IF retry THEN ObsSched(o1, R(e), now + RetryDelay) ELSE ObsTerminal(o1, m)
      /\ IF retry
         THEN /\ wpc' = [wpc EXCEPT ![e] = "wa1"] /\ wdue' = [wdue EXCEPT ![e] = now + RetryDelay]
@@ -283,7 +293,7 @@ W6(e) == /\ wpc[e] = "w6" /\ wpc' = [wpc EXCEPT ![e] = "done"]
          /\ UNCHANGED <<cfg, now, wheelV, apc, tickV, wdue, wpanic, sem, semq, ended, obs>>
 
 (* ------------------------------------------------------------------------ *)
-AdderStep(p) == A0(p) \/ A1(p) \/ A2(p) \/ A3(p)
+AdderStep(p) == AB(p) \/ A0(p) \/ A1(p) \/ A2(p) \/ A3(p)
 CloserStep == C0 \/ C1 \/ C2 \/ C3 \/ C4 \/ C5
 TickStep == T0 \/ T1 \/ T2timer \/ (\E s \in UpdSenders : T2upd(s)) \/ T2stop \/ T2block
             \/ T3 \/ T4 \/ T5 \/ Ts
@@ -292,7 +302,7 @@ Cont == (\E p \in Adders : A3w(p)) \/ C5w \/ (\E e \in Entries : W1w(e))
 ContPending == (\E p \in Adders : apc[p] \in {"a3r", "a3p"}) \/ cpc = "c5r"
                \/ (\E e \in Entries : wpc[e] = "w1r")
 
-EnAdder(p) == apc[p] \in {"a0", "a1", "a2", "a3"}
+EnAdder(p) == apc[p] \in {"ab", "a0", "a1", "a2", "a3"}
 EnCloser == cpc \in {"c0", "c1", "c2", "c3", "c4", "c5"}
 EnTick == tpc \in {"t0", "t1", "t2", "t3", "t4", "t5", "ts"}
 EnWorker(e) == wpc[e] \in {"w0", "w1", "wa1", "wa2", "wa3", "w5", "w6"}
